@@ -274,7 +274,10 @@ class _RealFS:
                 fsself.sch.point("read " + self.path); return self.f.read()
 
             def write(self, d):
-                fsself.sch.point("write " + self.path); r = self.f.write(d); self.f.flush(); return r
+                fsself.sch.point("write " + self.path); return self.f.write(d)      # buffered, like the real writer
+
+            def flush(self):
+                self.f.flush()
 
             def fileno(self):
                 return self.f.fileno()
